@@ -1,5 +1,7 @@
 HOOK_COMMITS = ["1ae4f10", "19e3492"]
 ENGINES = [
+    {"name": "robust", "path": "/verif/harness/robust", "serves_properties": ["C18"],
+     "kind_free_text": "rapid generators and native go-fuzz targets over every parsing/typed surface of both daemons, built on the other engines, with panic capture, watchdog and follow-up request"},
     {"name": "gcsim", "path": "/verif/harness/gcsim", "serves_properties": ["C17"],
      "kind_free_text": "the real flannel GC against a Docker Engine API stub and a CRI gRPC stub on unix sockets, per-case directories"},
     {"name": "netsim", "path": "/verif/harness/netsim", "serves_properties": ["C14", "C15", "C16"],
@@ -79,3 +81,7 @@ TEXTS["C17"] = {"engine": "gcsim", "design_ref": "DESIGN.md §4 C17",
     "level_note": "Trusted: the runtime stubs and the per-file keep/remove model. The veth collector needs netlink and is out of reach.",
     "technique": "fault-injection property testing (rapid): generated container-state mixes, directory contents and runtime faults vs. a per-file keep/remove model",
     "level_text": "Every generated mix of container states and runtime faults is run through the real GC against stub runtimes; the directory contents and port-clean callbacks are compared with a model file by file."}
+TEXTS["C18"] = {"engine": "robust", "design_ref": "DESIGN.md §4 C18",
+    "level_note": "Trusted: the watchdog bound (30 s vs. milliseconds of legitimate work) and the engines' fakes. Absence of crashes is sampled, never established.",
+    "technique": "fuzzing: rapid structured/byte generators plus coverage-guided native Go fuzz targets with panic capture, watchdog and follow-up-request oracle",
+    "level_text": "Every surface is attacked with generated and mutated inputs; the oracle (returns, no panic, instance still answers, tables sane) is inside each target."}
